@@ -19,6 +19,7 @@ func runC06(c *Ctx) {
 	c.NotCovered("equality of re-applied state and diffs (run-time notion)", "proof validity after revert / updateElementProof truncation (accumulator algebra, C05)")
 	ge := NewGuardEngine(c.P, c.Depth+4)
 	c06ProofUpdateOrder(c)
+	c06RevertLeafIndex(c, ge)
 	c06DiffPreserved(c)
 	rb := c.P.Func(CRB)
 	ab := c.P.Func(CAB)
@@ -714,4 +715,33 @@ func uniqueCounter(fi *fnInfo, idx ssa.Value, use *ssa.BasicBlock) bool {
 		}
 	}
 	return true
+}
+
+// c06RevertLeafIndex: the elements a block created are reported by its revert update at the leaf indices they were
+// given on apply: counted up from the PRE-block accumulator's leaf count, which is the receiver of revertBlock.
+func c06RevertLeafIndex(c *Ctx, ge *GuardEngine) {
+	const rule = "revert-leaf-index"
+	entry := "consensus.(*ElementAccumulator).revertBlock"
+	cs, ok := ge.EntryCalls(entry)
+	if !ok {
+		c.Undecided(rule, "anchor", "", entry+" does not resolve")
+		return
+	}
+	target := mustRe(pat("{[]consensus.elementLeaf#2}[*].StateElement.LeafIndex"))
+	want := mustRe(`^\(\{consensus\.ElementAccumulator\}\.NumLeaves \+ (idx|\*)\)$|^\((idx|\*) \+ \{consensus\.ElementAccumulator\}\.NumLeaves\)$`)
+	found, bad, where := false, "", ""
+	for _, cf := range cs {
+		if cf.Name != "store" || len(cf.Args) < 2 || !target.MatchString(cf.Args[0]) {
+			continue
+		}
+		where = c.P.Pos(cf.Pos)
+		if want.MatchString(cf.Args[1]) {
+			found = true
+		} else {
+			bad = cf.Args[1]
+		}
+	}
+	okr := found && bad == ""
+	c.Check(okr, rule, "added-leaves", where, ifElse(okr, "the reverted block's created leaves are numbered from the pre-block leaf count", ifElse(bad != "", "the created leaves of a reverted block get leaf index "+bad+", not pre-block NumLeaves + position: the revert update reports them at other indices than the apply update did", "no numbering of the created leaves found in revertBlock")))
+	c.Min(rule, 1)
 }
